@@ -61,11 +61,11 @@ P = {
          "§5 C12"),
  "C13": ("other",
          "AST/type lints specific to deploy/ with positive controls + SSA dominance and taint rules",
-         "Explicitly thin: structural necessary conditions only. Index-space consistency of re-sliced ranges; no map iteration order reaching a witness script; tryDeploy/tryTransfer computed as 'local index == 0' and dominating every deploying/funding submission; committee sorted before the index search; NNS stage first; no import that can persist local progress; encoder/decoder field tables of the shared transaction data and checksum helpers agree; name constants agree across deploy, rpc/nns, common and the contracts; a closure invalidating the shared transaction clears the signature cache validated against it; Transaction.Nonce/ValidUntilBlock depend on a chain height only through the window index (SSA taint); a typed constant a call is made with agrees with the one its error wrap names. Termination/convergence under schedules and crash points, fund and window arithmetic are NOT decided (would need execution or model checking).",
+         "Explicitly thin: structural necessary conditions only. Index-space consistency of re-sliced ranges; no map iteration order reaching a witness script; tryDeploy/tryTransfer computed as 'local index == 0' and dominating every deploying/funding submission; committee sorted before the index search; NNS stage first; no import that can persist local progress; encoder/decoder field tables of the shared transaction data and checksum helpers agree; name constants agree across deploy, rpc/nns, common and the contracts; a closure invalidating the shared transaction clears the signature cache validated against it; Transaction.Nonce/ValidUntilBlock depend on a chain height only through the window index (SSA taint); a typed constant a call is made with agrees with the one its error wrap names; a local that starts at a negative sentinel and is branched on is assigned somewhere (copy-paste contradiction rules with embedded positive controls). Termination/convergence under schedules and crash points, fund and window arithmetic are NOT decided (would need execution or model checking).",
          "§5 C13"),
  "C14": ("other",
          "typestate/loop-shape analysis of the counting loop, key-schema analysis of the roster families, must-facts at acceptance and notification",
-         "Decides: roster key schemas fixed-width with len(cid) == 32 guarded; commit deletes all old n/r keys, moves every scanned u key to n||key[1:] with its value, old-n scan before any n put, each of the five loops reached on every normal path (REP writes only for a non-nil list), left only on exhaustion and with no iteration going round its operation; the signature check is reachable only through the exhausted exit of a membership loop over a per-vector collection of already counted member keys, insertion and increment only on the success branch; acceptance under counter == REP of that cid, members scanned for the vector that selects the signature list, true only after the REP scan is exhausted; SubmitObjectPut notifies only after verification of (cid from meta, meta, sigs) with the meta flag present. The BE16 counter byte codec is value-level and NOT decided.",
+         "Decides: roster key schemas fixed-width with len(cid) == 32 guarded; commit deletes all old n/r keys, moves every scanned u key to n||key[1:] with its value, old-n scan before any n put, each of the five loops reached on every normal path (REP writes only for a non-nil list), left only on exhaustion and with no iteration going round its operation; the signature check is reachable only through the exhausted exit of a membership loop over a per-vector collection of already counted member keys, insertion and increment only on the success branch; acceptance under counter == REP of that cid, members scanned for the vector that selects the signature list and candidates taken from that scan only (a candidate list starts empty inside the per-vector loop), true only after the REP scan is exhausted; SubmitObjectPut notifies only after verification of (cid from meta, meta, sigs) with the meta flag present. The BE16 counter byte codec is value-level and NOT decided.",
          "§5 C14"),
  "C15": ("translation_validation",
          "translation validation by recompilation with the pinned compiler + AST/SSA checks of embed set, deploy order, version",
@@ -89,7 +89,7 @@ P = {
          "§5 C19"),
  "C20": ("other",
          "storage-layout analysis: component kinds of every Find prefix and Put key (R-prefix rule, family disjointness, put/get key agreement) + must-facts for gates, id length bound and cleanup deltas",
-         "Decides every scan of reputation, audit, container estimations, neofsid and the config maps against the R-prefix rule (four genuine findings are recorded as known findings), family disjointness of constant prefixes, key-term agreement of putters and getters, the id length bound of GetContainerSize, AddKey/RemoveKey acting on every submitted key (loop left only on exhaustion), netmap.SetConfig always storing the submitted value, the gates of putContainerSize and audit.put, and the cleanup deltas 3/4 with the putter's key components. Multiset equality of listings is not decided, hence 'other'.",
+         "Decides every scan of reputation, audit, container estimations, neofsid and the config maps against the R-prefix rule (four genuine findings are recorded as known findings), family disjointness of constant prefixes, key-term agreement of putters and getters, the id length bound of GetContainerSize, AddKey/RemoveKey acting on every submitted key (loop left only on exhaustion), netmap.SetConfig always storing the submitted value, the gates of putContainerSize and audit.put, the cleanup deltas 3/4 with the putter's key components, and the global cleanup examining every scanned key. Multiset equality of listings is not decided, hence 'other'.",
          "§5 C20"),
 }
 
